@@ -3,6 +3,7 @@ CONSTANTS
   Focus = {"g.my-list"}
   NDcf = 1
   MaxArgv = 2
+  Repeat = FALSE
   Emit = TRUE
 INVARIANT DocumentedOrder
 INVARIANT StagesAgree
